@@ -208,6 +208,16 @@ void RouterSession::checkPins(const char *when) {
         if (!c.alive || c.hyperedge) continue;
         bool any = c.e[0].kind != 0 || c.e[1].kind != 0 || !c.checkpoints.empty();
         if (!any) continue;
+        {   // valid arguments only: a checkpoint inside an obstacle is "skipped" by the library (connector.h) and what the rest of
+            // the route then looks like is not documented; a checkpoint on one of the connector's own free end points is degenerate
+            bool bad = false; double bufd = params.count(P_buffer) ? params[P_buffer] : 0;
+            for (auto &cp : c.checkpoints) {
+                for (auto &sk2 : shapes) if (sk2.second.alive) { RectB b2 = bbox(sk2.second.poly); if (cp.x >= b2.x - bufd - 1e-9 && cp.x <= b2.x + b2.w + bufd + 1e-9 && cp.y >= b2.y - bufd - 1e-9 && cp.y <= b2.y + b2.h + bufd + 1e-9) bad = true; }
+                for (auto &jk : junctions) if (jk.second.alive && std::fabs(jk.second.pt.x - cp.x) <= 1 + bufd && std::fabs(jk.second.pt.y - cp.y) <= 1 + bufd) bad = true;
+                for (int e = 0; e < 2; e++) if (c.e[e].kind == 0 && samePt(c.e[e].pt, cp)) bad = true;
+            }
+            if (bad) { probe("router.checkpoint-inside-an-obstacle-or-on-an-end-point-connector-not-judged"); continue; }
+        }
         std::vector<Pt> d = routePts(c.ref->displayRoute());
         if (d.size() < 2) { violate("C11", "route", "route-too-short", fmt("conn %d after %s", kv.first, when)); continue; }
         // the route's two ends, matched to the model's two attachments as an unordered pair
@@ -422,7 +432,7 @@ void RouterSession::checkNudging(const char *when) {
                             bool third = false;
                             for (int t = 0; t < m && !third; t++) if (t != i && t != j) for (int ee = 0; ee < 2; ee++) {
                                 Pt q = conns[ids[t]].e[ee].pt;
-                                if (conns[ids[t]].e[ee].kind == 0 && std::fabs(coord(q, dim) - c0) < 1e-9 && coord(q, o) >= lo - 1e-9 && coord(q, o) <= hi + 1e-9) third = true;
+                                if (conns[ids[t]].e[ee].kind == 0 && std::fabs(coord(q, dim) - c0) < 2e-6 && coord(q, o) >= lo - 1e-9 && coord(q, o) <= hi + 1e-9) third = true;      // same tolerance as "collinear"
                             }
                             if (third) sig += ":a-third-connectors-end-point-lies-on-the-shared-line";
                             else if (!ci.checkpoints.empty() || !cj.checkpoints.empty()) sig += ":a-connector-of-the-pair-has-checkpoints";      // KF-C10-g
